@@ -22,6 +22,114 @@ SUB = "darsia.image.subregions"
 IDX = "darsia.image.indexing"
 
 
+def _axis_reduction_sem(m, T_i):
+    """AxisReduction folded on a symbolic image for every dimension (2, 3), axis letter and the modes sum / average: what the constructor of
+    the reduced image is handed, compared with the documented construction -- dimensions without the reduced matrix axis; origin = the
+    Cartesian minimum corner without the reduced Cartesian axis, re-anchored by the default-origin convention of the reduced system;
+    array = sum along the reduced matrix axis (divided by its extent for the average).  [(title, ok, msg)] or None if it does not fold."""
+    from ..algebra import NotPolynomial, Poly
+    from ..fold import Arr, Folder as SF, Obj as SO, Opaque, Raised as SRa, Refuse as SRe, Sym
+    from ..terms import nf
+
+    def poly(t):
+        if isinstance(t, Opaque):
+            return Poly.atom(t.label)
+        if isinstance(t, Sym) and t.fn in ("+", "-", "*", "/") and len(t.args) == 2 and t.recv is None:
+            a, b = poly(t.args[0]), poly(t.args[1])
+            return {"+": lambda: a + b, "-": lambda: a - b, "*": lambda: a * b, "/": lambda: a / b}[t.fn]()
+        if isinstance(t, Sym) and t.fn == "neg" and len(t.args) == 1:
+            return poly(t.args[0]) * -1
+        if isinstance(t, int) and not isinstance(t, bool):
+            return Poly.const(t)
+        raise NotPolynomial(repr(t))
+
+    init = m.func(DIM, "AxisReduction.__init__")
+    call = m.func(DIM, "AxisReduction.__call__")
+    out = []
+    for d in (2, 3):
+        for kc, a in enumerate("xyz"[:d]):
+            row = T_i[(a, "ijk"[:d])]
+            if row[0] != "ret":
+                return None
+            index = row[1][0]
+            for mode in ("sum", "average"):
+                me = SO("self", {"__class__": "AxisReduction"})
+                fo = SF(symbolic=True)
+                fo.func_stack.append(init.node)
+                o = [Opaque("float", f"o{c}") for c in range(d)]
+                D = [Opaque("float", f"D{k}") for k in range(d)]
+                N = [Opaque("int", f"N{k}") for k in range(d)]
+                got = {}
+
+                def ctor(a_, k_, got=got):
+                    got.update(k_)
+                    return SO("result", {})
+                meta = {"space_dim": d, "indexing": "ijk"[:d], "origin": Arr(list(o)), "dimensions": list(D), "series": False, "scalar": True, "name": Opaque("meta", "NAME")}
+                origin = Arr(list(o))
+                img = SO("img", {"__class__": "Image", "__type__": ctor, "space_dim": d, "indexing": "ijk"[:d], "origin": origin, "dimensions": list(D),
+                                 "img": Opaque("ndarray", "IMG", {"shape": tuple(N)}), "metadata": lambda a_, k_, meta=meta: dict(meta)})
+                try:
+                    fo.call(init.node, [me, a, d, mode])
+                    f2 = SF(symbolic=True)
+                    f2.func_stack.append(call.node)
+                    f2.fold_all_methods = True
+                    f2.call(call.node, [me, img])
+                except (SRe, SRa):
+                    return None
+                if not got or not all(k in got for k in ("origin", "dimensions", "space_dim", "indexing", "img")):
+                    return None
+                label = f"dim {d}, axis {a!r}, mode {mode!r}"
+                # expected
+                mins = []
+                for c, ax in enumerate("xyz"[:d]):
+                    pos, rev = T_i[(ax, "ijk"[:d])][1]
+                    mins.append(Poly.atom(f"o{c}") - Poly.atom(f"D{pos}") if rev else Poly.atom(f"o{c}"))
+                mins.pop(kc)
+                newD = [x for k, x in enumerate(D) if k != index]
+                want_o = []
+                for c2, ax2 in enumerate("xyz"[:d - 1]):
+                    pos2, rev2 = T_i[(ax2, "ijk"[:d - 1])][1]
+                    want_o.append(mins[c2] + Poly.atom(newD[pos2].label) if rev2 else mins[c2])
+                gd = got["dimensions"]
+                gdl = list(gd) if isinstance(gd, (list, tuple)) else (gd.flat() if isinstance(gd, Arr) else None)
+                out.append((f"{label}: dimensions of the result are those of the retained matrix axes", gdl is not None and len(gdl) == d - 1 and all(x is y for x, y in zip(gdl, newD)),
+                            f"dimensions = {nf(gd)[:80]}, retained axes have {[nf(x) for x in newD]}"))
+                go = got["origin"]
+                gol = list(go) if isinstance(go, (list, tuple)) else (go.flat() if isinstance(go, Arr) else None)
+                try:
+                    ok_o = gol is not None and len(gol) == d - 1 and all(poly(x) == w for x, w in zip(gol, want_o))
+                except NotPolynomial:
+                    return None
+                out.append((f"{label}: origin of the result is the retained part of the Cartesian minimum corner, re-anchored in the reduced system", ok_o,
+                            f"origin = {nf(go)[:110]}; documented construction gives {[repr(w) for w in want_o]}"))
+                out.append((f"{label}: the result is a {d - 1}-dimensional image in matrix indexing", got["space_dim"] == d - 1 and got["indexing"] == "ijk"[:d - 1],
+                            f"space_dim = {nf(got['space_dim'])}, indexing = {nf(got['indexing'])}"))
+                want_img = f"np.sum(IMG, axis={index})" if mode == "sum" else f"(np.sum(IMG, axis={index}) / N{index})"
+                out.append((f"{label}: the data is reduced along matrix axis {index}" + (" and divided by its extent" if mode == "average" else ""), nf(got["img"]) == want_img,
+                            f"array = {nf(got['img'])[:90]}, expected {want_img}"))
+                # the input image's own origin / dimensions are untouched
+                out.append((f"{label}: origin and dimensions of the input image are left as they are", all(x is y for x, y in zip(origin.data, o)) and all(x is y for x, y in zip(img.fields['dimensions'], D)),
+                            f"input origin becomes {nf(origin)[:60]}, dimensions {nf(img.fields['dimensions'])[:60]}"))
+    return out
+
+
+def rule_axis_reduction(ctx):
+    """The folded AxisReduction obligations alone (shared into properties that rest on reduction by axis name / index)."""
+    R = "C11.a"
+    ctx.rule(R, "AxisReduction folded on a symbolic image per dimension, axis and mode against the documented construction (see C11.a)")
+    m = ctx.model
+    T_i, _, _ = c20.extract_tables(ctx)
+    f = m.func(DIM, "AxisReduction.__call__")
+    sem = _axis_reduction_sem(m, T_i)
+    ctx.instance(R)
+    if sem is None:
+        ctx.ob(R, f.qname, "AxisReduction folds on a symbolic image", False, "fold of AxisReduction not found to be possible", f.node)
+    else:
+        for title, ok_, msg_ in sem:
+            ctx.ob(R, f.qname, title, ok_, msg_, f.node, evidence=True)
+    ctx.floor(R, 1)
+
+
 def rule_a(ctx):
     R = "C11.a"
     ctx.rule(R, "the retained physical extent is carried over: Resize.__call__, uniform_refinement and equalize_voxel_size return "
@@ -60,7 +168,15 @@ def rule_a(ctx):
     ctx.instance(R)
     p = f.params[1]
     am = AM(f)
-    ctx.ob(R, f.qname, "the dimension at the reduced matrix index is removed", am.has(f.node, f"new_dimensions = {p}.dimensions.copy()") is not None and am.has(f.node, "new_dimensions.pop(self.index)") is not None, "", f.node)
+    T_i, _, _ = c20.extract_tables(ctx)
+    sem = _axis_reduction_sem(m, T_i)
+    ctx.stat("axis_reduction_folded", sem is not None)
+    if sem is not None:
+        for title, ok_, msg_ in sem:
+            ctx.ob(R, f.qname, title, ok_, msg_, f.node, evidence=True)
+    SKIP_TEMPLATES = sem is not None
+    if not SKIP_TEMPLATES:
+      ctx.ob(R, f.qname, "the dimension at the reduced matrix index is removed", am.has(f.node, f"new_dimensions = {p}.dimensions.copy()") is not None and am.has(f.node, "new_dimensions.pop(self.index)") is not None, "", f.node)
     # named contradiction: a Cartesian-ordered vector (derived from the origin) is reduced at the matrix index, or a matrix-ordered list
     # (derived from dimensions) at the Cartesian axis -- the two positions differ for every axis but one in 2-d and for all in 3-d
     defs_ = {}
@@ -80,7 +196,7 @@ def rule_a(ctx):
                 if isinstance(x, ast.Name) and x.id in defs_ and x.id != name and x.id not in seen:
                     ks |= kind_of(x.id, seen + (name,))
         return ks
-    for c_ in ast.walk(f.node):
+    for c_ in (ast.walk(f.node) if not SKIP_TEMPLATES else ()):
         if isinstance(c_, ast.Call) and isinstance(c_.func, ast.Attribute) and c_.func.attr == "pop" and isinstance(c_.func.value, ast.Name) and len(c_.args) == 1 \
                 and norm(c_.args[0]) in ("self.axis", "self.index"):
             ks = kind_of(c_.func.value.id)
@@ -88,16 +204,17 @@ def rule_a(ctx):
                 want = "self.axis" if ks == {"cartesian"} else "self.index"
                 ctx.ob(R, f.qname, f"`{norm(c_)}`: a {next(iter(ks))}-ordered vector is reduced at its own kind of position ({want})", norm(c_.args[0]) == want,
                        f"{norm(c_.func.value)} is {next(iter(ks))}-ordered, {norm(c_.args[0])} is the {'matrix index' if norm(c_.args[0]) == 'self.index' else 'Cartesian axis'}", c_, evidence=True)
-    ctx.ob(R, f.qname, "the origin component at the reduced Cartesian axis is removed", all(am.has(f.node, t) is not None for t in (f"min_corner = {p}.origin.copy()", "new_min_corner = min_corner.tolist()", "new_min_corner.pop(self.axis)", "new_origin = np.array(new_min_corner)")), "", f.node)
+    if not SKIP_TEMPLATES:
+      ctx.ob(R, f.qname, "the origin component at the reduced Cartesian axis is removed", all(am.has(f.node, t) is not None for t in (f"min_corner = {p}.origin.copy()", "new_min_corner = min_corner.tolist()", "new_min_corner.pop(self.axis)", "new_origin = np.array(new_min_corner)")), "", f.node)
     am.has(f.node, f"metadata = {p}.metadata()")
     am.has(f.node, "new_dim = original_dim - 1")
     am.has(f.node, f"original_dim = {p}.space_dim")
     am.has(f.node, "new_indexing = 'ijk'[:new_dim]")
     A = lambda k: am.actual(k) or k
     meta = {s.targets[0].slice.value: norm(s.value) for s in ast.walk(f.node) if isinstance(s, ast.Assign) and isinstance(s.targets[0], ast.Subscript) and norm(s.targets[0].value) == A("metadata") and isinstance(s.targets[0].slice, ast.Constant)}
-    ctx.ob(R, f.qname, "metadata: space_dim-1, reduced indexing, rebuilt origin, reduced dimensions", meta == {"space_dim": A("new_dim"), "indexing": A("new_indexing"), "origin": A("new_origin"), "dimensions": A("new_dimensions")}, str(meta), f.node)
+    if not SKIP_TEMPLATES:
+      ctx.ob(R, f.qname, "metadata: space_dim-1, reduced indexing, rebuilt origin, reduced dimensions", meta == {"space_dim": A("new_dim"), "indexing": A("new_indexing"), "origin": A("new_origin"), "dimensions": A("new_dimensions")}, str(meta), f.node)
     # (index, axis) pair from the table, both branches
-    T_i, _, _ = c20.extract_tables(ctx)
     init = m.func(DIM, "AxisReduction.__init__")
     fi = m.func(IDX, "interpret_indexing")
 
